@@ -30,7 +30,7 @@ def tm_flow(prop, tier, seed, rule):
     gv.coq_eval = _coq_eval_small
     chk = gv.Check(prop, tier, seed, level="proof")
     proof = gv.proof_status(prop, ["GV.Props.Props_%s" % prop])
-    ncases = 1000 if tier == "quick" else 12000
+    ncases = gv.scaled(prop, tier, 1000, 12000, chk)
     ok, out, binp = gv.cargo_build("c03")
     if not ok:
         chk.violation("build", {"what": "the harness no longer builds against /repo's working tree", "log": out[-3000:],
